@@ -470,6 +470,21 @@ fn main() {
                     }
                     // operator-chosen expiries other than the default, 0 included (every cookie older than the
                     // very second it was issued is then refused), with ages on both sides of each
+                    // secrets as they come out of a file: a trailing line feed, several lines.  Only the WHOLE secret
+                    // validates; a cookie tagged under one of its lines, or under the empty key, is a forgery
+                    for (sec, forged_keys) in [(b"topsecret\n".to_vec(), vec![b"topsecret".to_vec(), vec![]]),
+                                               (b"old-key\nnew-key".to_vec(), vec![b"old-key".to_vec(), b"new-key".to_vec()]),
+                                               (b"\n".to_vec(), vec![vec![]])] {
+                        let mut keys = vec![(sec.clone(), "whole")];
+                        for k in &forged_keys { keys.push((k.clone(), "part")); }
+                        for (k, what) in keys {
+                            let mut p = base_params(&mut r, Intent::Transfer);
+                            p.auth_payload = Some(valid_auth_cookie(&mut r, &client, &k, 7, expiry, false));
+                            let ads = base_ads(&mut r);
+                            let sc = build("C02", &mut r, &p, ads, Some(sec.clone()), client, format!("multi-line secret, cookie tagged under the {} ({} bytes)", what, k.len()));
+                            run(sc, &mut r);
+                        }
+                    }
                     // the claimed name equals the cookie's name but the claimed UUID is someone else's: the identity
                     // used must still be the cookie's
                     {
